@@ -697,6 +697,12 @@ func (d *Desc) RingCompare(o *Desc) CompareResult {
 			return Different
 		}
 
+		// Versions are copied into cached subrings, which are only refreshed with
+		// states and timestamps: a change must invalidate them.
+		if !maps.Equal(ing.Versions, oing.Versions) {
+			return Different
+		}
+
 		if len(ing.Tokens) != len(oing.Tokens) {
 			return Different
 		}
